@@ -309,3 +309,21 @@ Proof.
   repeat (constructor; [intros H; cbn in H; repeat (destruct H as [H|H]; [discriminate H|]); exact H |]).
   constructor.
 Qed.
+
+(* the MAC input is seq || the WHOLE packet: every byte of the plaintext packet (classic) or every
+   byte on the wire before the tag (encrypt-then-MAC) is fed to the HMAC, nothing is left out *)
+Lemma mac_covers_packet P s packet out m' :
+  encrypt_packet P s packet = Ok (out, m') ->
+  match p_mode s with
+  | Classic c k =>
+      out = fst (c_enc P c packet) ++ mac_tag P k (p_msz s) (be_encode 4 (p_seq s) ++ packet)
+  | Etm c k =>
+      out = (firstn 4 packet ++ fst (c_enc P c (skipn 4 packet))) ++
+            mac_tag P k (p_msz s) (be_encode 4 (p_seq s) ++ (firstn 4 packet ++ fst (c_enc P c (skipn 4 packet))))
+  | _ => True
+  end.
+Proof.
+  unfold encrypt_packet. destruct (p_mode s) as [|c k|c k|k iv]; auto.
+  - destruct (c_enc P c packet) as [o c']. intros H. injection H as <- _. reflexivity.
+  - destruct (c_enc P c (skipn 4 packet)) as [o c']. intros H. injection H as <- _. reflexivity.
+Qed.
